@@ -1,5 +1,6 @@
 """Command line driver: evaluates the obligations of one property (or all) on /repo's working tree."""
 import argparse
+import ast as _ast
 import importlib
 import json
 import os
@@ -10,11 +11,110 @@ import traceback
 HERE = os.path.dirname(os.path.abspath(__file__))
 sys.path.insert(0, os.path.dirname(HERE))
 
-from sa import report  # noqa: E402
+from sa import interp, report  # noqa: E402
 from sa.index import Program  # noqa: E402
 from sa.report import AnchorMissing, Check, Undecided  # noqa: E402
 
 ALL = ["C%02d" % i for i in range(1, 20)]
+
+
+UNBOUND_CONTROL = """
+def compute(x):
+    return x
+
+def bad3():
+    return not_defined_anywhere
+
+def bad(x):
+    try:
+        y = compute(x)
+    except ValueError:
+        pass
+    return y
+
+def bad2(flag):
+    if flag:
+        z = 1
+    return z
+
+def good(flag, xs):
+    if flag:
+        z = 1
+    for x in xs:
+        last = x
+    if flag:
+        return z
+    return last
+"""
+
+
+def _unbound_control(program):
+    """positive / negative control of O0.1 (expected count on the real tree is zero)"""
+    import ast as _ast
+
+    from sa import query
+    from sa.index import FuncInfo
+
+    m = query.adhoc_module(program, UNBOUND_CONTROL)
+    boom = interp.exc_value("ext:builtins.ValueError", "control")
+    for st in m.tree.body:
+        if isinstance(st, _ast.FunctionDef):
+            fi = FuncInfo("<control>:" + st.name, st, m)
+            hook = lambda it, path, ct, node: [("raise", boom), ("value", ("sym", "r"))] if ct[0] == "call" and "compute" in str(ct[1]) else None  # noqa: E731
+            interp.Interp(program, fi, call_hook=hook).run()
+    got = {k for k in interp.UNBOUND_READS if k[0].startswith("<control>:")}
+    return got == {("<control>:bad", "y"), ("<control>:bad2", "z"), ("<control>:bad3", "not_defined_anywhere")}
+
+
+def _anchor_files(pid):
+    try:
+        with open(os.path.join(os.path.dirname(HERE), "properties.jsonl")) as f:
+            for line in f:
+                d = json.loads(line)
+                if d.get("id") == pid:
+                    return list(d.get("anchors", {}).get("files", []))
+    except (OSError, ValueError):
+        pass
+    return []
+
+
+def _exercise_anchor_files(pid, program, chk):
+    """interpret every function of the property's anchor files once, without hooks, only to collect O0.1 reads"""
+    files = set(_anchor_files(pid))
+    n = 0
+    for fi in list(program.functions.values()):
+        rel = getattr(fi.module, "relpath", "") or ""
+        if not any(rel.endswith(f) for f in files):
+            continue
+        # a call inside a try body may raise what the handlers of that try catch (one representative per handler)
+        raising = {}
+        for t in _ast.walk(fi.node):
+            if isinstance(t, _ast.Try) and t.handlers:
+                excs = []
+                for h in t.handlers:
+                    types = h.type.elts if isinstance(h.type, _ast.Tuple) else [h.type]
+                    for ty in types[:1]:
+                        q = program.resolve(fi.module, ty) if ty is not None else "rep:OtherBase"
+                        if q:
+                            excs.append(interp.exc_value(q, "raised in try body"))
+                for st in t.body:
+                    for c in _ast.walk(st):
+                        if isinstance(c, _ast.Call):
+                            raising.setdefault(id(c), excs)
+
+        def hook(it, path, ct, node, raising=raising):
+            ex = raising.get(id(node))
+            if ex and ct[0] == "call":
+                return [("raise", e) for e in ex] + [("value", ct)]
+            return None
+
+        try:
+            interp.Interp(program, fi, call_hook=hook if raising else None).run()
+            n += 1
+        except Undecided:
+            continue
+    chk.count(n)
+    chk.facts["O0.1 functions of the anchor files interpreted for unbound reads"] = n
 
 
 def run_property(pid, tier, seed, repo, replay=None):
@@ -31,10 +131,27 @@ def run_property(pid, tier, seed, repo, replay=None):
         print("ANALYSIS-ERROR property=%s rule module missing: %s" % (pid, e))
         return 2
     selftest = None
+    interp.UNBOUND_READS.clear()
+    if not _unbound_control(program):
+        print("ANALYSIS-ERROR property=%s the unbound-local tracker (O0.1) does not behave as expected on its control example" % pid)
+        return 2
+    interp.UNBOUND_READS.clear()
     try:
         mod.run(chk)
         if tier == "thorough" and hasattr(mod, "run_thorough"):
             mod.run_thorough(chk)
+        _exercise_anchor_files(pid, program, chk)
+        # O0.1 (every property): a function the rules interpreted reads a local that no earlier statement on that
+        # path has bound -- the anchored code raises UnboundLocalError / NameError instead of doing what the property says
+        for (qual, name), line in sorted(interp.UNBOUND_READS.items()):
+            fi = program.functions.get(qual)
+            chk.bad(
+                "O0.1",
+                qual,
+                "`%s` is read at line %s on a path where no earlier statement has bound it (UnboundLocalError): the code this property rests on cannot run" % (name, line),
+                node=fi.node if fi is not None else None,
+                stmt="unbound %s" % name,
+            )
     except AnchorMissing as e:
         chk.missing("driver", "<anchor>", str(e))
     except Undecided as e:
